@@ -418,6 +418,15 @@ func predict(m *model, o *op, condKeys map[string]bool) *prediction {
 			if len(o.modelKeys) > 0 && !keys[k] {
 				continue
 			}
+			if o.dead[k] && !o.unscoped {
+				// a soft-deleted row is outside every chain that is not Unscoped
+				for c, e := range p.rows[k].cells {
+					e.cls = "soft-deleted-row-changed"
+					e.why = "the row matches the conditions / the model key but is soft-deleted and the chain is not Unscoped"
+					p.rows[k].cells[c] = e
+				}
+				continue
+			}
 			p.updateRow(m, o, o.recs[0], k)
 			p.target = append(p.target, k)
 		}
